@@ -9,7 +9,9 @@
    [sign_range] are explicit hypotheses.  That the CONCRETE curve satisfies
    recover_sign is NOT proved: the curve is library code (libsecp256k1 / decred),
    covered by the differential run in both the cgo and the CGO_ENABLED=0 build. *)
-From GV Require Import Lib.Tactics Lib.Bytes Crypto.Signer Crypto.SignerProofs.
+(* Crypto.SecpTest: vm_compute TESTS of the executable curve Crypto/Secp.v on go-ethereum
+   vectors (kept in this closure so that every check compiles them); no theorem below uses it *)
+From GV Require Import Lib.Tactics Lib.Bytes Crypto.Signer Crypto.SignerProofs Crypto.SecpTest.
 Local Open Scope Z_scope.
 
 (* Sender(SignTx(tx, signer, key)) = address of key: every tx type, every signer
@@ -29,6 +31,23 @@ Theorem C03_sender_sign :
     sender pubkey H recover addr_of sg t' = ROk (addr_of (pub k)).
 Proof. exact sender_sign. Qed.
 Print Assumptions C03_sender_sign.
+
+(* ... and the signed tx is recovered by every COMPATIBLE signer: an unprotected
+   (Frontier/Homestead) signature by every signer, a chain-id-c signature by every
+   signer for chain id c that supports the type (London-signed under Prague, ...) *)
+Theorem C03_sender_sign_compatible :
+  forall (key pubkey : Type) (H : list N -> list N)
+    (sign : key -> list N -> Z * Z * Z)
+    (recover : list N -> Z -> Z -> Z -> option pubkey)
+    (pub : key -> pubkey) (addr_of : pubkey -> list N),
+  recover_sign key pubkey sign recover pub -> sign_low_s key sign -> sign_range key sign ->
+  forall (sg sg' : signer) (t : tx) (k : key),
+  signer_wf sg -> sign_guard sg t -> compatible sg sg' (t_type t) ->
+  exists t' : tx,
+    sign_tx key H sign sg t k = ROk t' /\
+    sender pubkey H recover addr_of sg' t' = ROk (addr_of (pub k)).
+Proof. exact sender_sign_compatible. Qed.
+Print Assumptions C03_sender_sign_compatible.
 
 (* the guard chain id > 0 is needed: NewEIP155Signer(0) signs over the 9-field hash
    but produces V = 27/28, which Sender recovers over the 6-field Frontier hash *)
